@@ -15,10 +15,10 @@ import (
 func TestVerifC08Wire(t *testing.T) {
 	explore.Main("C08", []explore.Part{
 		c08Part("varint", "exhaustive: every 1- and 2-byte varint encoding and (thorough: every 3-byte string) through quicvarint.Parse/Read/Append/AppendWithLen/Len against a reference codec; 4- and 8-byte encodings with every byte position swept over 0..255 around the width boundaries", c08VarintPart),
-		c08Part("frame-types", "exhaustive: all 256 one-byte and all 2-byte-varint frame types 0..16383, each followed by 7 constant-filled bodies, at 4 encryption levels x 8 feature-flag combinations (1-RTT also with ack delay exponents 0 and 20)", c08FrameTypesPart),
+		c08Part("frame-types", "exhaustive: all 256 one-byte and all 2-byte-varint frame types 0..16383, each followed by 7 constant-filled bodies, at 4 encryption levels x 8 feature-flag combinations (1-RTT also with ack delay exponents 0 and 20); every refusal of a minimally encoded type is judged by the admission model (RFC 9000 Table 3 / section 12.5, negotiated extension frames)", c08FrameTypesPart),
 		c08Part("bytes-frames", "exhaustive: every byte string of length <= 2 as packet payload through FrameParser at 4 encryption levels x 8 feature-flag combinations (thorough: also every 3-byte string at 4 levels x {all extensions negotiated, none})", c08BytesFramesPart),
 		c08Part("bytes-headers", "exhaustive: every byte string of length <= 2 (thorough: <= 3) through ParsePacket/ParseExtended, ParseShortHeader (connection ID lengths 0,1,2), ParseVersionNegotiationPacket, ParseConnectionID, TransportParameters.Unmarshal (both perspectives), UnmarshalFromSessionTicket", c08BytesHeadersPart),
-		c08Part("lattice-frames", "structured lattice: one case per (frame type, leading field) chunk; every value is encoded, length-checked, parsed back under every level/flag configuration, then every prefix and single-byte substitution of the encoding is parsed", func(bool) c08PartSpec { return c08FrameLatticePart() }),
+		c08Part("lattice-frames", "structured lattice: one case per (frame type, leading field) chunk; every value is encoded, length-checked, parsed back under all 4 levels x 8 extension flag combinations (equal value demanded wherever the admission model says the frame may be sent), then every prefix and single-byte substitution of the encoding is parsed", func(bool) c08PartSpec { return c08FrameLatticePart() }),
 		c08Part("lattice-headers", "structured lattice over long headers (type x version x connection ID lengths x token length x packet number length/value x payload length), short headers, version negotiation packets, plus raw long headers built by a reference encoder (any first byte/version/connection ID length byte/token length/Length); every prefix and single-byte substitution of every header encoding", c08HeaderLatticePart),
 		c08Part("tparams-values", "structured lattice over TransportParameters: every single field alternative and every pair of alternatives of two fields, both perspectives, Marshal -> Unmarshal; prefixes and single-byte substitutions of the encodings; session-ticket form likewise", c08TPValuesPart),
 		c08Part("tparams-table", "exhaustive: every sequence of <= 3 entries (with repetition = duplicates) from a table of raw parameters incl. perspective-forbidden and out-of-range ones, alone and followed by the mandatory parameters, for both perspectives", c08TPTablePart),
